@@ -92,6 +92,15 @@ impl<'i> Handle<'i> {
 			}
 		}
 	}
+
+	/// Returns the projection of a reader-backed handle (verification only).
+	#[cfg(xt_verif)]
+	pub(crate) fn verif_project(&self) -> Option<crate::verif::HandleState> {
+		match &self.0 {
+			Source::Slice(_) => None,
+			Source::Reader(r) => Some(r.0.verif_project()),
+		}
+	}
 }
 
 /// Produces the original input as a slice, either by passing through the
@@ -339,6 +348,16 @@ where
 	/// source.
 	fn into_inner(self) -> (Cursor<Vec<u8>>, R) {
 		(self.prefix, self.source)
+	}
+
+	/// Returns the observable projection of the reader (verification only).
+	#[cfg(xt_verif)]
+	pub(crate) fn verif_project(&self) -> crate::verif::HandleState {
+		crate::verif::HandleState {
+			captured_len: self.prefix.get_ref().len(),
+			cursor: self.prefix.get_ref().len() - self.captured_unread_size(),
+			source_eof: self.source_eof,
+		}
 	}
 }
 
